@@ -177,7 +177,7 @@ HAND = {
     "SelfRec": (False, None), "MutA": (False, None), "MutB": (False, None), "Cyc1": (False, None), "Cyc2": (False, None),
     "Cyc3": (False, None), "OnlyAsParam": (False, None), "ParamOnly": (False, None), "PCycA": (False, None), "PCycB": (False, None),
     "Shared": (False, None), "Left": (False, None), "Right": (False, None), "Top": (False, None), "SharedTwin": (False, None),
-    "SharedAlias": (False, "vcommon::hand::Shared"),
+    "SharedAlias": (False, "vcommon::hand::Shared"), "NamedPrim": (False, None),
 }
 
 
@@ -243,6 +243,14 @@ def core_types():
     out += [hand(n) for n in HAND]
     out += [T("box", [hand("SelfRec")]), T("vec", [hand("MutA")]), T("option", [hand("Top")]), T("rc", [hand("Shared")]), T("box", [hand("SharedAlias")]),
             T("tuple", [hand("Left"), hand("Right")]), T("array", [hand("Cyc2")], 2), T("btreemap", [U8, hand("ParamOnly")])]
+    # Compact of hand-written (instrumented) types: evaluation counting reaches through Compact
+    out += [T("compact", [hand("Shared")]), T("compact", [hand("NamedPrim")]), T("vec", [hand("NamedPrim")]), T("tuple", [hand("Shared"), hand("SharedTwin")])]
+    # both bit orders over one store in one type
+    for st in ["u8", "u32"]:
+        out += [T("tuple", [T("bitvec", extra=(st, "Lsb0")), T("bitvec", extra=(st, "Msb0"))]), T("tuple", [T("bitvec", extra=(st, "Msb0")), T("bitvec", extra=(st, "Lsb0"))])]
+    # array and sequence of one element type, two array lengths of one element type
+    out += [T("tuple", [T("array", [U8], 4), T("vec", [U8])]), T("tuple", [T("vec", [U16]), T("array", [U16], 2), T("array", [U16], 3)]), T("tuple", [T("range", [U32]), T("rangeinc", [U32])]),
+            T("tuple", [T("rangeinc", [U8]), T("range", [U8])])]
     # deep nesting
     d = U8
     for i in range(6):
